@@ -245,7 +245,10 @@ func FlushPath(ctx context.Context, rt *Root, pth string) (ipld.Node, error) {
 		return nil, err
 	}
 
-	rt.repub.WaitPub(ctx)
+	// A root created without a publish function has no republisher.
+	if rt.repub != nil {
+		rt.repub.WaitPub(ctx)
+	}
 	return nd.GetNode()
 }
 
